@@ -221,4 +221,55 @@ theorem iterGo_nil (f off lc ve : Nat) (pend : Delivered) :
   simp [iterGo, safeReadEntry, headerDecodeFrom, readByte]
 
 end
+theorem withVptrs_points (fid : Nat) (cipher : Nat → Nat → UInt8) (es : List Entry) :
+    ∀ (off : Nat) (more : Bytes), ∀ d ∈ withVptrs fid cipher off es,
+      d.2.fid = fid ∧ off ≤ d.2.offset ∧
+      ((encodeAll cipher off es ++ more).drop (d.2.offset - off)).take d.2.len =
+        encodeEntry (cipher d.2.offset) d.1 := by
+  induction es with
+  | nil => intro off more d hd; simp [withVptrs] at hd
+  | cons x xs ih =>
+    intro off more d hd
+    simp only [withVptrs, List.mem_cons] at hd
+    rcases hd with rfl | hd
+    · refine ⟨rfl, Nat.le_refl _, ?_⟩
+      simp [encodeAll]
+    · obtain ⟨h1, h2, h3⟩ := ih (off + (encodeEntry (cipher off) x).length) more d hd
+      refine ⟨h1, by omega, ?_⟩
+      simp only [encodeAll, List.append_assoc]
+      rw [show d.2.offset - off = (encodeEntry (cipher off) x).length +
+          (d.2.offset - (off + (encodeEntry (cipher off) x).length)) by omega,
+        ← List.drop_drop, List.drop_left' rfl]
+      exact h3
+
+theorem LogUnit.entries_eq_payload (u : LogUnit) : ∃ t, u.entries = u.payload ++ t := by
+  cases u with
+  | single e => exact ⟨[], by simp [LogUnit.entries, LogUnit.payload]⟩
+  | txn ts es fin => exact ⟨[fin], rfl⟩
+
+/-- **Value pointers point at the records.** Every delivered `(entry, vptr)` has `vptr.Fid = fid`
+    and the `vptr.Len` bytes at file offset `vptr.Offset` are exactly the encoding of that entry
+    (so `decodeEntry` / `valueLog.Read` at the pointer returns it, by `C16_roundtrip`). -/
+theorem deliveredUnits_points (fid : Nat) (cipher : Nat → Nat → UInt8) (us : List LogUnit) :
+    ∀ (off : Nat) (more : Bytes), ∀ d ∈ deliveredUnits fid cipher off us,
+      d.2.fid = fid ∧ off ≤ d.2.offset ∧
+      ((encodeAll cipher off (unitsEntries us) ++ more).drop (d.2.offset - off)).take d.2.len =
+        encodeEntry (cipher d.2.offset) d.1 := by
+  induction us with
+  | nil => intro off more d hd; simp [deliveredUnits] at hd
+  | cons u us ih =>
+    intro off more d hd
+    simp only [deliveredUnits, List.mem_append] at hd
+    rw [unitsEntries_cons, encodeAll_append, List.append_assoc]
+    rcases hd with hd | hd
+    · obtain ⟨t, ht⟩ := LogUnit.entries_eq_payload u
+      rw [ht, encodeAll_append, List.append_assoc]
+      exact withVptrs_points fid cipher u.payload off _ d hd
+    · obtain ⟨h1, h2, h3⟩ := ih (off + encLen cipher off u.entries) more d hd
+      refine ⟨h1, by omega, ?_⟩
+      rw [show d.2.offset - off = encLen cipher off u.entries +
+          (d.2.offset - (off + encLen cipher off u.entries)) by omega,
+        ← List.drop_drop, List.drop_left' (by rfl : (encodeAll cipher off u.entries).length = encLen cipher off u.entries)]
+      exact h3
+
 end Badger
